@@ -185,7 +185,7 @@ func runChild(file string) string {
 func runGC(tmp, src string) (string, bool) {
 	d := filepath.Join(tmp, "gc")
 	os.MkdirAll(d, 0o755)
-	os.WriteFile(filepath.Join(d, "go.mod"), []byte("module p\n\ngo 1.21\n"), 0o644)
+	os.WriteFile(filepath.Join(d, "go.mod"), []byte("module p\n\ngo 1.25\n"), 0o644)
 	os.WriteFile(filepath.Join(d, "main.go"), []byte(src), 0o644)
 	b := exec.Command(*goBin, "build", "-o", "p.bin", ".")
 	b.Dir = d
